@@ -2,6 +2,7 @@ package main
 
 import (
 	"fmt"
+	"os"
 	"go/ast"
 	"go/token"
 	"go/types"
@@ -9,11 +10,10 @@ import (
 	"golang.org/x/tools/go/ssa"
 )
 
-// localValue finds the SSA value that holds source variable `name` at the head
-// of loop li.
-func (vc *VC) localValue(fr *Frame, li *loopInfo, name string, phiOverride map[*ssa.Phi]SV) SV {
-	hdr := li.header
-	for _, ins := range hdr.Instrs {
+// valueAt finds the value of source variable `name` at the entry of block blk
+// (at = nil) or just before instruction `at` of blk.
+func (vc *VC) valueAt(fr *Frame, blk *ssa.BasicBlock, at ssa.Instruction, name string, phiOverride map[*ssa.Phi]SV) SV {
+	for _, ins := range blk.Instrs {
 		phi, ok := ins.(*ssa.Phi)
 		if !ok {
 			break
@@ -26,7 +26,7 @@ func (vc *VC) localValue(fr *Frame, li *loopInfo, name string, phiOverride map[*
 		}
 	}
 	if name == "rangeindex" {
-		vc.fail("loop %d of %s has no range index", li.ord, fr.fn.Name())
+		vc.fail("no range index at this point of %s", fr.fn.Name())
 	}
 	// address-taken variable: an Alloc with that comment
 	var allocs []*ssa.Alloc
@@ -48,14 +48,47 @@ func (vc *VC) localValue(fr *Frame, li *loopInfo, name string, phiOverride map[*
 			return vc.load(vc.lvalOfSV(fr.bind[i], fv.Type()))
 		}
 	}
-	// parameters
-	for i, p := range fr.fn.Params {
-		if p.Name() == name {
-			return fr.args[i]
+	// the variable's object, to tell apart equally named variables of different scopes
+	var target types.Object
+	if fr.fi != nil {
+		pos := token.NoPos
+		if at != nil {
+			pos = at.Pos()
+		}
+		if pos == token.NoPos {
+			for _, ins := range blk.Instrs {
+				if ins.Pos() != token.NoPos {
+					pos = ins.Pos()
+					break
+				}
+			}
+		}
+		if v := localVar(fr.fi, name, pos); v != nil {
+			target = v
 		}
 	}
-	// a variable assigned before the loop and not changed in it: use debug refs
+	// a debug ref binds the variable to a value at its own location; the binding that
+	// reaches the query point is the one whose location is its closest dominator
+	locBefore := func(d *ssa.DebugRef) bool {
+		db := d.Block()
+		if db == blk {
+			if at == nil {
+				return false
+			}
+			for _, ins := range blk.Instrs {
+				if ins == at {
+					return false
+				}
+				if ins == ssa.Instruction(d) {
+					return true
+				}
+			}
+			return false
+		}
+		return db.Dominates(blk)
+	}
 	var best ssa.Value
+	var bestRef *ssa.DebugRef
 	for _, b := range fr.fn.Blocks {
 		for _, ins := range b.Instrs {
 			d, ok := ins.(*ssa.DebugRef)
@@ -66,27 +99,61 @@ func (vc *VC) localValue(fr *Frame, li *loopInfo, name string, phiOverride map[*
 			if !ok || id.Name != name {
 				continue
 			}
-			x := d.X
-			var xb *ssa.BasicBlock
-			if xi, ok := x.(ssa.Instruction); ok {
-				xb = xi.Block()
-			}
-			if xb != nil && (li.blocks[xb] && xb != hdr || !xb.Dominates(hdr)) {
-				continue
-			}
-			if xb == hdr {
-				if _, isPhi := x.(*ssa.Phi); !isPhi {
+			if target != nil && fr.fi != nil {
+				if o := fr.fi.Pkg.TypesInfo.ObjectOf(id); o != nil && o != target {
 					continue
 				}
 			}
-			if best == nil {
-				best = x
-			} else if bi, ok := best.(ssa.Instruction); ok && xb != nil && bi.Block().Dominates(xb) {
-				best = x
+			if !locBefore(d) {
+				continue
+			}
+			if bestRef == nil {
+				best, bestRef = d.X, d
+				continue
+			}
+			if bestRef.Block() != d.Block() {
+				if bestRef.Block().Dominates(d.Block()) {
+					best, bestRef = d.X, d
+				}
+				continue
+			}
+			// same block: the later one wins
+			for _, q := range d.Block().Instrs {
+				if q == ssa.Instruction(bestRef) {
+					best, bestRef = d.X, d
+					break
+				}
+				if q == ssa.Instruction(d) {
+					break
+				}
+			}
+		}
+	}
+	// a phi for this variable at a block that dominates the point and is dominated by
+	// the chosen binding is newer than the binding
+	for _, b := range fr.fn.Blocks {
+		if b == blk || !b.Dominates(blk) {
+			continue
+		}
+		for _, ins := range b.Instrs {
+			phi, ok := ins.(*ssa.Phi)
+			if !ok {
+				break
+			}
+			if phi.Comment != name {
+				continue
+			}
+			if bestRef == nil || (bestRef.Block() != b && bestRef.Block().Dominates(b)) {
+				best = phi
+				bestRef = nil
+				// later candidates must now be dominated by b: approximate by stopping at the deepest such phi
 			}
 		}
 	}
 	if best != nil {
+		if os.Getenv("GOVC_DEBUG") != "" {
+			fmt.Fprintf(os.Stderr, "valueAt %s in %s block %d: %s = %s\n", name, fr.fn.Name(), blk.Index, best.Name(), best)
+		}
 		if phi, ok := best.(*ssa.Phi); ok {
 			if v, ok := phiOverride[phi]; ok {
 				return v
@@ -94,8 +161,18 @@ func (vc *VC) localValue(fr *Frame, li *loopInfo, name string, phiOverride map[*
 		}
 		return vc.val(fr, best)
 	}
-	vc.fail("loop %d of %s: cannot find the value of local variable %q at the loop head", li.ord, fr.fn.Name(), name)
+	// parameters (never reassigned, never referenced through a debug ref)
+	for i, p := range fr.fn.Params {
+		if p.Name() == name {
+			return fr.args[i]
+		}
+	}
+	vc.fail("%s: cannot find the value of variable %q at this point (it must be live there)", fr.fn.Name(), name)
 	return SV{}
+}
+
+func (vc *VC) localValue(fr *Frame, li *loopInfo, name string, phiOverride map[*ssa.Phi]SV) SV {
+	return vc.valueAt(fr, li.header, nil, name, phiOverride)
 }
 
 func (vc *VC) clauseArgsFrame(fr *Frame) []SV {
